@@ -198,6 +198,36 @@ theorem c36_visit_starts_contour (W fuel : Nat) (s s' : ScanState) (p : Pt)
     · cases h
 
 
+/-- **C36.S5b** The same in External mode, where a border only starts if the last non-zero pixel
+seen on the row is not inside an outer border (`last_nonzero_pixel <= 0`). -/
+theorem c36_visit_starts_contour_external (W fuel : Nat) (s s' : ScanState) (p : Pt)
+    (hcur : getM s.m W p = 1) (hleft : getM s.m W (p.1, p.2 - 1) = 0) (hlast : s.lastNonzero ≤ 0)
+    (h : visit W fuel true s p = .ok s') :
+    ∃ c, s'.contours = c :: s.contours ∧ c.head? = some (p.1 - 1, p.2 - 1) := by
+  unfold visit at h
+  simp only at h
+  rw [if_neg (by omega)] at h
+  have hsn : startNeighbor s.m W true s.lastNonzero p = some (p.1, p.2 - 1) := by
+    simp [startNeighbor, hleft, hcur, hlast]
+  rw [hsn] at h
+  simp only at h
+  split at h
+  · cases h; exact ⟨_, rfl, rfl⟩
+  · split at h
+    · rename_i m' border hf
+      cases h
+      refine ⟨_, rfl, ?_⟩
+      have := follow_first W p _ fuel s.m _ m' border (markStep_pushes hcur) hf
+      rw [List.head?_map, this]; rfl
+    · cases h
+    · cases h
+
+/-- A run that goes through `follow`: the two-pixel component of a 1×3 mask `0 1 1` is traced
+from its raster-first pixel. -/
+example : (visit 5 200 false { m := padMask 1 3 [false, true, true], contours := [], lastNonzero := 0 }
+    (1, 2)) matches .ok s' := by decide +kernel
+example : findContours 1 3 [false, true, true] false = .ok [[(0, 1), (0, 2)]] := by decide +kernel
+
 /-- The hypotheses are satisfiable: the single foreground pixel of a 1×1 mask. -/
 example : getM (padMask 1 1 [true]) 3 (1, 1) = 1 ∧ getM (padMask 1 1 [true]) 3 (1, 0) = 0 := by
   decide
